@@ -647,8 +647,9 @@ class Universe:
                             plist[idx] = {"$ref": f"#/components/parameters/{cname}"}
             if not cparams:
                 del components["parameters"]
-        mal = desc.get("malformed")
-        if mal and mal["op"] in self.ops:
+        for mal in [desc.get("malformed")] + list(desc.get("malformed_more") or []):
+            if not mal or mal["op"] not in self.ops:
+                continue
             refop = self.ops[mal["op"]]
             coll = next(c for c in desc["collections"] if c["name"] == refop.collection)
             mkey = refop.method if coll.get("upper_methods") else refop.method.lower()
